@@ -20,6 +20,10 @@ BA == {-1, 2, 4, 5, 8}        \* out of range, the well-known service address, n
 SeqAlloc == [c \in {"A", "B"} |-> IF c = "A" THEN <<"raw", "dlc", "ldl", "dlc">> ELSE <<>>]
 SeqNames == [c \in {"A", "B"} |-> IF c = "A" THEN <<"dlc", "dlc", "dlc">> ELSE <<"dlc">>]
 Max41    == [c \in {"A", "B"} |-> IF c = "A" THEN 4 ELSE 1]
+SeqNamesQ == [c \in {"A", "B"} |-> IF c = "A" THEN <<"dlc", "dlc">> ELSE <<"dlc">>]
+\* thorough tier
+SeqAllocT == [c \in {"A", "B"} |-> IF c = "A" THEN <<"raw", "dlc", "ldl", "dlc", "ldl">> ELSE <<>>]
+SeqDgramT == [c \in {"A", "B"} |-> IF c = "A" THEN <<"raw", "ldl", "ldl">> ELSE <<"ldl", "ldl">>]
 SeqDgram == [c \in {"A", "B"} |-> IF c = "A" THEN <<"raw", "ldl", "ldl">> ELSE <<"ldl">>]
 Max31    == [c \in {"A", "B"} |-> IF c = "A" THEN 3 ELSE 1]
 Max42n   == [c \in {"A", "B"} |-> IF c = "A" THEN 4 ELSE 2]
